@@ -63,6 +63,10 @@ def plan(tier, seed):
                 for rep in range(2):
                     units.append({'kind': 'sign', 'ns': ns, 'style': style, 'slot': i, 'weight': 1 + ns})
                     i += 1
+        # absent content under every content type (the zero-length boundary crossed with the type dimension)
+        for tn in TYPE_NAMES:
+            units.append({'kind': 'sign', 'ns': 1 + (rd + TYPE_NAMES.index(tn)) % 2, 'style': 'short', 'slot': i, 'empty_type': tn, 'weight': 2})
+            i += 1
         for nr in (1, 2, 3, 4):
             for style in ('short', 'normal'):
                 for rep in range(2):
@@ -249,6 +253,8 @@ def gen_content(ctx, slot, for_sign):
     size = sizes[slot % len(sizes)]
     tname = TYPE_NAMES[(slot // 3) % 6] if slot % 3 else 'data'
     if for_sign and tname != 'data':
+        if size == 0:
+            return tname, b''            # absent content (the [0] EXPLICIT field is OPTIONAL) under a non-data type
         if size < 2:
             tname = 'data'
         else:
@@ -610,6 +616,8 @@ def u_sign(ctx, u):
     signers = [make_party(ctx, pki, 's%d' % i if style == 'short' else 'signer-%d-%s' % (i, 'x' * rng.randint(0, 12)),
                           X.KU_DIGITAL_SIGNATURE, provs[i]) for i in range(ns)]
     tname, content = gen_content(ctx, slot, True)
+    if u.get('empty_type'):
+        tname, content = u['empty_type'], b''
     msg = lib_sign(ctx, signers, tname, content, pki.crl() if slot % 4 == 2 else None)
     case = ('sign', ns, style, tuple(p.prov for p in signers), tname, len(content))
     if msg is None:
